@@ -342,6 +342,10 @@ func (e *UnaryOpExpr) Value(ctx *hcl.EvalContext) (cty.Value, hcl.Diagnostics) {
 		return cty.UnknownVal(e.Op.Type), diags
 	}
 
+	// The operand's marks are carried over to the result here, as for binary
+	// operators, because the function call answers an unknown operand by
+	// itself, without them.
+	val, valMarks := val.Unmark()
 	args := []cty.Value{val}
 	result, err := impl.Call(args)
 	if err != nil {
@@ -357,7 +361,7 @@ func (e *UnaryOpExpr) Value(ctx *hcl.EvalContext) (cty.Value, hcl.Diagnostics) {
 		return cty.UnknownVal(e.Op.Type), diags
 	}
 
-	return result, diags
+	return result.WithMarks(valMarks), diags
 }
 
 func (e *UnaryOpExpr) Range() hcl.Range {
